@@ -13,7 +13,7 @@ TECHNIQUE = ('exhaustive enumeration, by reflection over every declared data-typ
 
 KINDS = ('new', 'parse-absent', 'parse-present', 'copy-of-parse-absent', 'mk_copy', 'parse-absent-again',
          'populated', 'mk_copy-of-populated', 'deepcopy-of-populated', 'parse-of-populated', 'populated-again',
-         'parse-of-populated-again')
+         'parse-of-populated-again', 'mk_copy-of-new', 'deepcopy-of-new', 'mk_copy-of-parse-absent')
 
 
 def obtain(cls, kind, proto, extra=None):
@@ -43,6 +43,22 @@ def obtain(cls, kind, proto, extra=None):
         inst = reflect.new(cls)
         reflect.populate(inst, depth=2)
         return inst
+    if kind in ('mk_copy-of-new', 'mk_copy-of-parse-absent'):
+        # the source is kept: empty lists / empty extension values must not be shared either
+        src = extra.get('new' if kind.endswith('new') else 'parse-absent')
+        return src.mk_copy() if src is not None and hasattr(src, 'mk_copy') else None
+    if kind == 'deepcopy-of-new':
+        src = extra.get('new')
+        if src is None:
+            return None
+        if reflect.is_state(cls):
+            dc = src.descriptor_container
+            src.descriptor_container = None
+            c = copy.deepcopy(src)
+            c.descriptor_container = dc
+            src.descriptor_container = dc
+            return c
+        return copy.deepcopy(src)
     if kind == 'mk_copy-of-populated':
         src = extra.get('populated')
         return src.mk_copy() if src is not None and hasattr(src, 'mk_copy') else None
